@@ -155,6 +155,26 @@ PROPS["C25"] = dict(
     technique="contract-based deductive verification (Verus on the mechanically extracted real body, loop invariant + nonlinear lemmas)",
 )
 
+PROPS["C28"] = dict(
+    level="proof",
+    text="collection laws that live in vrl code: slice agrees with positional indexing (every array/string, every i64 start/end, incl. negative positions and error cases), "
+         "length agrees with the container, merge has from's values on shared keys / recursive merge of objects under `deep` to every depth -- the real bodies of stdlib slice, length and merge_maps, extracted and verified by Verus; "
+         "the string laws (casing, strip_whitespace, split/join, starts_with/ends_with/contains, truncate, strlen) and unique/compact/keys/values are NOT decided: they are std str/IndexSet/BTreeMap calls outside both verifiers",
+    verus=["v_collections"],
+    kani=[],
+    bounded_native=[dict(unit="collection_laws", bound="arrays and strings of length 0..4 x start,end in -6..6 (and no end); 57 objects of depth <= 3 pairwise, deep and shallow",
+                         functions=["stdlib slice/length/merge through compiled VRL programs (argument plumbing: SliceFn/LengthFn/MergeFn::resolve)"],
+                         text="the argument plumbing of the three function expressions (resolve: optional end, deep default) is outside the extracted bodies: slice/length/merge called from VRL agree with a reference model on the stated domain")],
+    trusted=["verus prelude collections.rs: bytes::Bytes::slice and Vec::drain(range).collect() return the sub-sequence [start, end) (and panic unless start <= end <= len, which is therefore a proof obligation of the caller); BTreeMap get_mut/insert/iteration as a finite map visited once per key; Value/KeyString clone is the identity",
+             "`len as i64` equals the length (std allocation bound isize::MAX; prelude len_i64)",
+             "error-message construction (format!, ValueError::Expected) opaque",
+             "merge_maps is generic over the key type K; verified at an abstract key type with identity clone"],
+    not_covered=["upcase/downcase/casing idempotence, strip_whitespace, join(split), starts_with/ends_with/contains, truncate, strlen: std str and Unicode tables, no contract within reach of Verus (no str reasoning) or CBMC (String)",
+                 "unique (IndexSet), compact (iterator filter_map recursion), keys/values (BTreeMap into_keys/into_values): pure library delegation or iterator adapters Verus rejects",
+                 "termination of merge_maps' recursion"],
+    technique="contract-based deductive verification (Verus on mechanically extracted real bodies; closure contract, loop invariant with ghost done-set)",
+)
+
 PROPS["C17"] = dict(
     level="proof",
     text="target faults are contained: every vrl call site of the embedder's Target (Query::resolve, assignment Target::insert, del, exists, unnest, Runtime::resolve) verified by Verus on the extracted real body against a target whose every answer (value, nothing, fault) is arbitrary",
